@@ -1085,6 +1085,9 @@ pub fn run_uscenario(sc: &UScenario, replay: Option<Vec<Decision>>, trace: bool)
         RunEnd::Violation(v) => violation = Some(v),
         RunEnd::StepCap => step_cap_hit = true,
         RunEnd::Diverged(e) => diverged = Some(e),
+        RunEnd::Deadlock(d) => {
+            violation = Some(engine::violation(&sc.profile, "deadlock", format!("no thread can move: {d} wait for a lock that is never released")))
+        }
     }
     let drained = drain(&mut sim, &mut h);
     if violation.is_none() && diverged.is_none() {
